@@ -854,6 +854,9 @@ struct Explorer<'a> {
 // Runs `walks` random walks on one layout. Returns false if a violation stopped it.
 fn explore_layout(case: &LayoutCase, flags: &Flags, walks: usize, wp: &WalkParams, rng: &mut Rng, out: &mut ShardOut, known: &[String]) {
   let mut ex = Explorer { eng: Engine::new(case, flags.clone()), frontier: vec![], seen: HashSet::new(), trans: HashSet::new() };
+  // wide layouts: histories with many keys held at once
+  let wide_wp = WalkParams { n_max: 20, max_len: wp.max_len * 2 };
+  let wp = if case.wide { out.count("wide_layouts"); &wide_wp } else { wp };
   out.count("layouts");
   out.count(&format!("layouts_{}", case.source.split(':').next().unwrap()));
   let mut violations_here = 0;
